@@ -112,7 +112,7 @@ def unpicked (np0 : List Nat) (xy : List Nat) : List Nat :=
 def combPos : Nat → Nat → Nat → List (List Nat)
   | 0, _, _ => [[]]
   | k + 1, start, m => (pyRange start m).flatMap fun i => (combPos k (i + 1) m).map (i :: ·)
-termination_by k => k
+
 
 def padTo (w : Nat) (row : List Nat) : List Nat := row ++ List.replicate (w - row.length) 0
 
